@@ -107,3 +107,55 @@ Lemma headers_sweep :
   f_label (fields_of (abs_htable hsample code)) = Some (code (pad_to 9 [76; 66]%N)) /\
   length (f_components (fields_of (abs_htable hsample code))) = 2 /\ length (f_output_values (fields_of (abs_htable hsample code))) = 2.
 Proof. vm_compute. repeat split. Qed.
+
+(* ---------------- rules as columns: the table of hsample drawn with rules as columns (coq/C19/CanvasColumnsDraw.v)
+    ┌───────┬───╥────┬────┐
+    │Aa     │Va ║Da  │Ga  │
+    ├───────┼───╫────┼────┤
+    │Ab     │Vb ║Db  │Gb  │
+    ╞═══╤═══╪═══╬════╪════╡
+    │LB │Ba │Wa ║Ea  │Ha  │
+    │   ├───┼───╫────┼────┤
+    │   │Bb │Wb ║Eb  │Hb  │
+    ╞═══╧═══╧═══╬════╪════╡
+    │Ca         ║Fa  │Ia  │
+    ├───────────╫────┼────┤
+    │ U         ║ 1  │ 2  │
+    └───────────╨────┴────┘  *)
+From DV Require Import C19.Columns C19.CanvasColumnsDraw.
+
+Definition csample : htable :=
+  {| ht_ws := [3; 3; 3; 4; 4]; ht_hs := [1; 1; 1; 1; 1; 1];
+     ht_hp := blk 1 11 [32; 85]%N;
+     ht_ins := [(blk 1 7 (tx 0 0), blk 1 3 (tx 21 0)); (blk 1 7 (tx 0 1), blk 1 3 (tx 21 1))];
+     ht_label := Some (blk 3 3 [76; 66]%N);
+     ht_outs := [(blk 1 3 (tx 1 0), blk 1 3 (tx 22 0)); (blk 1 3 (tx 1 1), blk 1 3 (tx 22 1))];
+     ht_anns := [blk 1 11 (tx 2 0)];
+     ht_values := true;
+     ht_rules := [(blk 1 4 [32; 49]%N, [blk 1 4 (tx 3 0); blk 1 4 (tx 3 1)], [blk 1 4 (tx 4 0); blk 1 4 (tx 4 1)], [blk 1 4 (tx 5 0)]);
+                  (blk 1 4 [32; 50]%N, [blk 1 4 (tx 6 0); blk 1 4 (tx 6 1)], [blk 1 4 (tx 7 0); blk 1 4 (tx 7 1)], [blk 1 4 (tx 8 0)])];
+     ht_merge := [] |}.
+
+Definition cplane_ok (s : htable) : bool :=
+  let d := column_drawing s in wf_mdraw d && outcome_eqb (canvas_cplane (drawm d)) (Ok (None, mplane d)).
+Definition ctable_ok (s : htable) : bool :=
+  match canvas_to_plane code (drawm (column_drawing s)) with
+  | Some p =>
+      match recognize_plane (php s) (pnum s) p with
+      | Some (AsColumn, hp, n, f) => (hp =? 1)%N && (n =? length (ht_rules s)) && fields_eqb f (fields_of (abs_htable s code))
+      | _ => false
+      end
+  | None => false
+  end.
+
+Lemma columns_sweep :
+  wf_ctable csample = true /\ cplane_ok csample = true /\ ctable_ok csample = true /\ parsers_ok csample = true /\
+  first_input_not_marker (php csample) (abs_htable csample code) = true /\
+  first_output_not_number (pnum csample) (abs_htable csample code) = true /\
+  mcols (column_drawing csample) = 5 /\ mrows (column_drawing csample) = 6 /\
+  md_v1 (column_drawing csample) = 3 /\ md_h1 (column_drawing csample) = 2 /\ md_h2 (column_drawing csample) = Some 4 /\
+  md_reg (column_drawing csample) 2 0 = (2, 0, 4, 1) /\ md_reg (column_drawing csample) 3 0 = (2, 0, 4, 1) /\
+  md_reg (column_drawing csample) 0 1 = (0, 0, 1, 2) /\ md_reg (column_drawing csample) 5 2 = (5, 0, 6, 3) /\
+  nth 4 (mgrid (column_drawing csample)) [] = [9566; 9552; 9552; 9552; 9572; 9552; 9552; 9552; 9578; 9552; 9552; 9552; 9580; 9552; 9552; 9552; 9552; 9578; 9552; 9552; 9552; 9552; 9569]%N /\
+  nth 8 (mgrid (column_drawing csample)) [] = [9566; 9552; 9552; 9552; 9575; 9552; 9552; 9552; 9575; 9552; 9552; 9552; 9580; 9552; 9552; 9552; 9552; 9578; 9552; 9552; 9552; 9552; 9569]%N.
+Proof. vm_compute. repeat split. Qed.
